@@ -800,7 +800,7 @@ def eval_binary(ctx, rep, case, res, mdl_resp=None, model_checked=None):
         it["raw"] = strip_sgr(l)
     distinct = True   # every palette used here has pairwise distinct colours
     bad = check_rows(case["items"], rows, dict(fmt=case["fmt"], sep=case["sep"], tab=tab), distinct)
-    for rule, i, detail in bad[:3]:
+    for rule, i, detail in bad[:8]:
         rep.violation("%s:%s" % (rule, cls), "blame output row %d breaks rule '%s'" % (i, rule),
                       dict(replay, rule=rule, row_index=i, detail=detail))
     return rows
